@@ -112,6 +112,14 @@ def create_machine(
     # -------------------------------------------------------------------------
     # ☝️ Step 1: Determine the Source of Business Logic
     # -------------------------------------------------------------------------
+    # 🛡️ Everything below subscripts `config` by key; a non-mapping used to
+    #    surface as a raw AttributeError from library internals.
+    if not isinstance(config, dict):
+        raise InvalidConfigError(
+            "Machine configuration must be a dict, got "
+            f"'{type(config).__name__}'."
+        )
+
     final_logic: MachineLogic
     if logic:
         # ✅ Path 1: Use the explicitly provided logic instance.
